@@ -45,11 +45,67 @@ def _self_stores(fn):
   return out
 
 
+def _sentinel(stmts, i):
+  """`if C: V = None  else: ...; V = <not None>` directly followed by
+  `if V is None:` -- the second test repeats C (None is the "nothing found"
+  sentinel).  Returns (polarity of C when V is None, C) or None."""
+  s = stmts[i]
+  t = s.test
+  neg = False
+  if isinstance(t, ast.Compare) and len(t.ops) == 1 and isinstance(
+      t.ops[0], (ast.Is, ast.IsNot)) and isinstance(t.left, ast.Name) and \
+      isinstance(t.comparators[0], ast.Constant) and t.comparators[0].value is None:
+    v = t.left.id
+    neg = isinstance(t.ops[0], ast.IsNot)
+  else:
+    return None
+  if i == 0 or not isinstance(stmts[i - 1], ast.If):
+    return None
+  p = stmts[i - 1]
+
+  def last_value(block):
+    if not block:
+      return None
+    a = block[-1]
+    if isinstance(a, ast.Assign) and len(a.targets) == 1 and isinstance(
+        a.targets[0], ast.Name) and a.targets[0].id == v:
+      if any(isinstance(x, ast.Name) and x.id == v and isinstance(x.ctx, ast.Store)
+             for st in block[:-1] for x in ast.walk(st)):
+        return None
+      return a.value
+    return None
+  vb, vo = last_value(p.body), last_value(p.orelse)
+  if vb is None or vo is None:
+    return None
+  is_none = lambda e: isinstance(e, ast.Constant) and e.value is None
+  if is_none(vb) == is_none(vo):
+    return None
+  # V is None  <=>  the branch that assigned None was taken
+  pol = 'T' if is_none(vb) else 'F'
+  if neg:
+    pol = 'F' if pol == 'T' else 'T'
+  return pol, p.test
+
+
 def _enclosing_withs(fn, target):
   out = []
 
+  def tst(stmts, i, taken):
+    """(polarity, text) of the test guarding the taken branch of stmts[i]"""
+    s = stmts[i]
+    sen = _sentinel(stmts, i)
+    t, pol = s.test, taken
+    if sen is not None:
+      # taken == 'T' means the sentinel test held
+      t = sen[1]
+      pol = sen[0] if taken == 'T' else ('F' if sen[0] == 'T' else 'T')
+    if isinstance(t, ast.UnaryOp) and isinstance(t.op, ast.Not):
+      t = t.operand
+      pol = 'F' if pol == 'T' else 'T'
+    return (pol, core.norm(t))
+
   def rec(stmts, acc):
-    for s in stmts:
+    for i, s in enumerate(stmts):
       if not any(x is target for x in ast.walk(s)):
         continue
       acc2 = acc
@@ -57,9 +113,9 @@ def _enclosing_withs(fn, target):
         acc2 = acc + [core.norm(it.context_expr) for it in s.items]
       if isinstance(s, ast.If):
         if any(x is target for b in s.body for x in ast.walk(b)):
-          return rec(s.body, acc + [('T', core.norm(s.test))])
+          return rec(s.body, acc + [tst(stmts, i, 'T')])
         if any(x is target for b in s.orelse for x in ast.walk(b)):
-          return rec(s.orelse, acc + [('F', core.norm(s.test))])
+          return rec(s.orelse, acc + [tst(stmts, i, 'F')])
         return acc
       for f in ('body', 'orelse', 'finalbody'):
         blk = getattr(s, f, None)
@@ -144,7 +200,9 @@ def check(model, rep, tier):
   rep.rule('CACHE-ALLOWLIST', 'negative cache keyed by function and options', floor=3)
   rep.rule('CACHE-LOCKORDER', 'lock order acyclic', floor=1)
 
-  tf = model.func(TR, 'PyToPy.transform_function')
+  tf0 = model.func(TR, 'PyToPy.transform_function')
+  # private helpers expanded: the lookup may sit in a helper or in the function
+  tf = core.FuncInfo(tf0.module, tf0.view(), cls=tf0.cls)
   fn = tf.node
   pname = tf.params()[0]
   g = pycfg.CFG(fn)
